@@ -30,14 +30,15 @@ var c09UniverseFull = []rs{
 	{ResourceType: "registry", Resource: "catalog", Action: "*"},
 	{ResourceType: "repository", Resource: "", Action: "pull"},   // empty name: must not be the catalog
 	{ResourceType: "repository", Resource: "a", Action: "pulse"}, // unknown action sorting between pull and push
-	{ResourceType: "other", Resource: "x", Action: "y"},
+	{ResourceType: "other", Resource: "a", Action: "y"},          // another type naming the same resource as a repository (printing must not merge them)
 	{ResourceType: "zz"}, // opaque single word
+	{ResourceType: "zz", Resource: "r", Action: "act"}, // a fifth member of the "others" list, sorting last
 	// thorough only:
-	{ResourceType: "repository", Resource: "b", Action: "push"},
 	{ResourceType: "repository", Resource: "a", Action: "delete"},
 	{ResourceType: "registry", Resource: "catalog", Action: "pull"},
 	{ResourceType: "repository", Resource: "", Action: "push"},
 	{ResourceType: "repository", Resource: "a/b", Action: "pull"},
+	{ResourceType: "repository", Resource: "catalog", Action: "pull"}, // a repository that happens to be called like the catalog sentinel
 }
 
 func rsText(r rs) string {
@@ -229,9 +230,9 @@ func permute(xs []rs, f func([]rs)) {
 }
 
 func c09Check(r *vcore.Run) vcore.Coverage {
-	n := 8
+	n := 9
 	if r.Thorough() {
-		n = 13
+		n = 14
 	}
 	e := newC09Env(n)
 	nsets := uint32(1) << n
@@ -347,6 +348,35 @@ func c09Check(r *vcore.Run) vcore.Coverage {
 		atomic.AddInt64(&evals, ev)
 		atomic.AddInt64(&nontrivial, nt)
 	})
+	// results are values: a later Union on the same receiver must not change an earlier result
+	// (all triples over a sub-universe; receivers are private to the worker so a shared backing
+	// array shows deterministically)
+	// quick: the five members of the "others" list plus one repository action; thorough: eight elements
+	tIdx := []int{4, 5, 6, 7, 8, 0}
+	if r.Thorough() {
+		tIdx = []int{0, 1, 3, 4, 5, 6, 7, 8}
+	}
+	expand := func(t uint32) (m uint32) {
+		for k, i := range tIdx {
+			if t&(1<<k) != 0 {
+				m |= 1 << i
+			}
+		}
+		return m
+	}
+	tsets := uint32(1) << len(tIdx)
+	tmasks := make([]uint32, tsets)
+	for t := range tmasks {
+		tmasks[t] = expand(uint32(t))
+	}
+	var triples int64
+	vcore.ParallelN(int(tsets), func(i int) {
+		n := e.checkTriples(r, tmasks[i], tmasks)
+		atomic.AddInt64(&triples, n)
+	})
+	evals += triples
+	r.Notes["union_triples"] = triples
+	r.Notes["union_triples_universe"] = len(tIdx)
 	r.Sample("pair", e.mkCase("pair", 0b00010011, 0b00100110, ""))
 	r.Sample("universe", func() []string {
 		var s []string
@@ -405,6 +435,78 @@ func (e *c09Env) checkPair(r *vcore.Run, a, b uint32) {
 	}
 }
 
+// checkTriples: for receiver set a (built three ways, privately), every b and c:
+// u1 = A.Union(B); u2 = A.Union(C); then u1, u2 and A must still be a|b, a|c and a.
+func (e *c09Env) checkTriples(r *vcore.Run, a uint32, tmasks []uint32) (n int64) {
+	el := e.elems(a)
+	half := len(el) / 2
+	recvs := []ociauth.Scope{
+		ociauth.NewScope(append([]rs(nil), el...)...),
+		ociauth.ParseScope(e.textOf(a)),
+		ociauth.NewScope(append([]rs(nil), el[:half]...)...).Union(ociauth.NewScope(append([]rs(nil), el[half:]...)...)),
+	}
+	routes := []string{"NewScope", "ParseScope", "Union-built"}
+	bad := false
+	for _, b := range tmasks {
+		for _, c := range tmasks {
+			if bad {
+				return n
+			}
+			for v, recv := range recvs {
+				n++
+				cs := e.mkCaseLazy("triple", a, b, routes[v], c)
+				func() {
+					defer func() {
+						if p := recover(); p != nil {
+							bad = true
+							r.Violate("triple", "C09/triple/panic", cs(), "no panic", fmt.Sprint(p))
+						}
+					}()
+					u1 := recv.Union(e.canon[b])
+					u2 := recv.Union(e.canon[c])
+					g1, p1 := e.observe(u1)
+					g2, p2 := e.observe(u2)
+					g0, p0 := e.observe(recv)
+					if g1 != a|b || p1 != "" {
+						bad = true
+						r.Violate("triple", "C09/Union/earlier-result-changed-by-later-union/"+routes[v], cs(), e.names(a|b), e.names(g1)+p1)
+					}
+					if g2 != a|c || p2 != "" {
+						bad = true
+						r.Violate("triple", "C09/Union/second-union-from-same-receiver-wrong/"+routes[v], cs(), e.names(a|c), e.names(g2)+p2)
+					}
+					if g0 != a || p0 != "" {
+						bad = true
+						r.Violate("triple", "C09/Union/receiver-changed/"+routes[v], cs(), e.names(a), e.names(g0)+p0)
+					}
+					if u1.Equal(u2) != (a|b == a|c) {
+						bad = true
+						r.Violate("triple", "C09/Union/results-Equal-wrong/"+routes[v], cs(), fmt.Sprint(a|b == a|c), fmt.Sprint(u1.Equal(u2)))
+					}
+				}()
+			}
+		}
+	}
+	return n
+}
+
+type c09Triple struct {
+	c09Case
+	C  []string `json:"c"`
+	MC uint32   `json:"mask_c"`
+}
+
+// mkCaseLazy defers building the (allocation-heavy) case description until a violation needs it.
+func (e *c09Env) mkCaseLazy(op string, a, b uint32, route string, c uint32) func() any {
+	return func() any {
+		t := c09Triple{c09Case: e.mkCase(op, a, b, route), MC: c}
+		for _, x := range e.elems(c) {
+			t.C = append(t.C, rsText(x))
+		}
+		return t
+	}
+}
+
 func c09Replay(r *vcore.Run, sub string, raw json.RawMessage) {
 	var c c09Case
 	if json.Unmarshal(raw, &c) != nil || c.N == 0 {
@@ -419,7 +521,13 @@ func c09Replay(r *vcore.Run, sub string, raw json.RawMessage) {
 		e.canon[m] = ociauth.NewScope(e.elems(m)...)
 		e.text[m] = ociauth.ParseScope(e.textOf(m))
 	}
-	if sub == "pair" {
+	if sub == "triple" {
+		all := make([]uint32, nsets)
+		for i := range all {
+			all[i] = uint32(i)
+		}
+		e.checkTriples(r, c.MA, all)
+	} else if sub == "pair" {
 		e.checkPair(r, c.MA, c.MB)
 	} else {
 		e.checkScope(r, e.canon[c.MA], c.MA, "NewScope(sorted)")
